@@ -208,9 +208,12 @@ type Unit struct {
 	Name     string
 }
 
+var globalFresh int
+
+// freshName: names are unique across all units of a run (pointwise definitions are looked up by name).
 func (x *Exec) freshName(prefix string) string {
-	x.fresh++
-	return fmt.Sprintf("%s!%d", prefix, x.fresh)
+	globalFresh++
+	return fmt.Sprintf("%s!%d", prefix, globalFresh)
 }
 
 func (x *Exec) freshTerm(prefix string, s *Sort) *Term {
